@@ -180,6 +180,9 @@ pub struct World {
     pub response_during_stream: bool,
     /// bytes of every chunk whose send returned Ok, in order of acceptance (whichever handle was used)
     pub accepted_all: Vec<u8>,
+    /// payload bytes of a partly sent inbound PUBLISH the peer still owes
+    pub inbound_owed: usize,
+    pub inbound_qos2: u16,
 }
 
 pub fn tag_topic(i: usize) -> String {
@@ -227,10 +230,15 @@ impl World {
     }
 
     pub async fn start_with(role: Role, limit: u16, how: LimitHow, write_hw: usize, peer_max: Option<u32>) -> Result<World, Failure> {
+        Self::start_cfg(role, limit, how, write_hw, peer_max, &|_| {}).await
+    }
+
+    pub async fn start_cfg(role: Role, limit: u16, how: LimitHow, write_hw: usize, peer_max: Option<u32>, tweak: &dyn Fn(&mut Cfg)) -> Result<World, Failure> {
         let mut cfg = limit_cfg(role, limit, how);
         let peer_max = if role.is_v5() { peer_max } else { None };
         cfg.v5.connect.max_packet_size = peer_max;
         cfg.v5.connack.max_packet_size = peer_max;
+        tweak(&mut cfg);
         cfg.v3.write_hw = write_hw;
         cfg.v5.write_hw = write_hw;
         let eut = Eut::start(role, &cfg).await;
@@ -260,6 +268,8 @@ impl World {
             inbound_id: 100,
             response_during_stream: false,
             accepted_all: Vec::new(),
+            inbound_owed: 0,
+            inbound_qos2: 0,
         })
     }
 
@@ -687,17 +697,8 @@ impl World {
                 if self.streams.iter().any(|s| s.handle.is_some() && (s.accepted.len() as u32) < s.declared && !s.aborted) {
                     self.response_during_stream = true;
                 }
-                self.inbound_id += 1;
-                let id = self.inbound_id;
-                let server = self.eut.role().is_server();
-                let p = match (what % 4, server) {
-                    (1, true) => P5::PingReq,
-                    (2, true) => P5::Subscribe(s5::Sub5 { pid: id, filters: vec![("in/#".into(), s5::SubOpts::default())], ..Default::default() }),
-                    (3, _) => P5::Publish(Box::new(s5::Publish5 { topic: "in/0".into(), qos: 0, payload_len: 2, ..Default::default() })),
-                    _ => P5::Publish(Box::new(s5::Publish5 { topic: "in/1".into(), qos: 1, pid: Some(id), payload_len: 2, ..Default::default() })),
-                };
-                let payload: &[u8] = if matches!(p, P5::Publish(_)) { &[7, 7] } else { &[] };
-                self.eut.peer_send(&p, payload);
+                let bytes = self.inbound_bytes(what);
+                self.eut.peer().send(&bytes);
                 self.eut.settle().await;
             }
             Op::Hold(hold) => {
@@ -727,6 +728,41 @@ impl World {
             self.absorb()?;
         }
         Ok(())
+    }
+
+    /// bytes of the next inbound packet of class `what` (see `Op::Inbound`; 4: PUBLISH QoS 1 declaring 20 payload
+    /// bytes of which 6 are sent, 5: the remaining 14 bytes, 6: PUBLISH QoS 2, 7: PUBREL for the last QoS 2 publish)
+    pub fn inbound_bytes(&mut self, what: u8) -> Vec<u8> {
+        let server = self.eut.role().is_server();
+        if what % 8 == 5 {
+            let n = self.inbound_owed;
+            self.inbound_owed = 0;
+            return vec![9; n];
+        }
+        if what % 8 == 7 {
+            return self.eut.encode(&P5::PubRel(s5::Ack5 { pid: self.inbound_qos2, ..Default::default() }), &[]);
+        }
+        self.inbound_id += 1;
+        let id = self.inbound_id;
+        let p = match (what % 8, server) {
+            (1, true) => P5::PingReq,
+            (2, true) => P5::Subscribe(s5::Sub5 { pid: id, filters: vec![("in/#".into(), s5::SubOpts::default())], ..Default::default() }),
+            (3, _) => P5::Publish(Box::new(s5::Publish5 { topic: "in/0".into(), qos: 0, payload_len: 2, ..Default::default() })),
+            (4, _) => P5::Publish(Box::new(s5::Publish5 { topic: "in/p".into(), qos: 1, pid: Some(id), payload_len: 20, ..Default::default() })),
+            (6, _) => {
+                self.inbound_qos2 = id;
+                P5::Publish(Box::new(s5::Publish5 { topic: "in/2".into(), qos: 2, pid: Some(id), payload_len: 2, ..Default::default() }))
+            }
+            _ => P5::Publish(Box::new(s5::Publish5 { topic: "in/1".into(), qos: 1, pid: Some(id), payload_len: 2, ..Default::default() })),
+        };
+        if what % 8 == 4 {
+            let mut b = self.eut.encode(&p, &[9; 20]);
+            b.truncate(b.len() - 14);
+            self.inbound_owed = 14;
+            return b;
+        }
+        let payload: &[u8] = if matches!(p, P5::Publish(_)) { &[7, 7] } else { &[] };
+        self.eut.encode(&p, payload)
     }
 
     pub fn ended(&self) -> bool {
